@@ -154,6 +154,24 @@ def lemma_dvd_trans(x, a, t):
     return z3.Implies(z3.And(a >= 0, t >= 1, Al(x, a), Dv(t, a)), x % t == 0)
 
 
+def lemma_multiples_gap(x, y, P):
+    """Align.lean int_multiples_gap: P > 0, x % P == 0, y % P == 0, y < x  ->  y + P <= x"""
+    LEMMA_INSTANCES.append("int_multiples_gap")
+    return z3.Implies(z3.And(P > 0, x % P == 0, y % P == 0, y < x), y + P <= x)
+
+
+def lemma_pow2_succ(m):
+    """Align.lean pow2_succ: m >= 0 -> 2**(m+1) == 2 * 2**m"""
+    LEMMA_INSTANCES.append("pow2_succ")
+    return z3.Implies(m >= 0, pow2(m + 1) == 2 * pow2(m))
+
+
+def lemma_pow2_add(a, b):
+    """Align.lean pow2_add: a, b >= 0 -> 2**(a+b) == 2**a * 2**b"""
+    LEMMA_INSTANCES.append("pow2_add")
+    return z3.Implies(z3.And(a >= 0, b >= 0), pow2(a + b) == pow2(a) * pow2(b))
+
+
 def lemma_pow2_test(r, r_and_r_minus_1, al):
     """Align.lean pow2_test_dvd:  r >= 1, r & (r-1) == 0, r <= 2**al  ->  2**al % r == 0.
     `r_and_r_minus_1` is the term by which the engine names the value of the source expression `r & (r - 1)` on this path"""
